@@ -835,6 +835,10 @@ impl<F: Read + Write + Seek> CompoundFile<F> {
             Some(stream_id) => stream_id,
             None => not_found!("Parent storage doesn't exist"),
         };
+        // Only storages (and the root) can have children.
+        if self.minialloc().dir_entry(parent_id).obj_type == ObjType::Stream {
+            not_found!("Parent storage doesn't exist");
+        }
         self.minialloc_mut().insert_dir_entry(
             parent_id,
             name,
@@ -1023,6 +1027,10 @@ impl<F: Read + Write + Seek> CompoundFile<F> {
             Some(stream_id) => stream_id,
             None => not_found!("Parent storage doesn't exist"),
         };
+        // Only storages (and the root) can have children.
+        if self.minialloc().dir_entry(parent_id).obj_type == ObjType::Stream {
+            not_found!("Parent storage doesn't exist");
+        }
         let new_stream_id = self.minialloc_mut().insert_dir_entry(
             parent_id,
             name,
